@@ -27,5 +27,6 @@ theorem replace_checked_failure_changes_nothing : type_of% @Cjet.Props.CjsonTree
 theorem replace_unchecked_failure_strips_the_name : type_of% @Cjet.Props.CjsonTree.replace_unchecked_failure_strips_the_name := @Cjet.Props.CjsonTree.replace_unchecked_failure_strips_the_name
 theorem replace_unchecked_failure_loses_the_member : type_of% @Cjet.Props.CjsonTree.replace_unchecked_failure_loses_the_member := @Cjet.Props.CjsonTree.replace_unchecked_failure_loses_the_member
 theorem replace_success_in_place : type_of% @Cjet.Props.CjsonTree.replace_success_in_place := @Cjet.Props.CjsonTree.replace_success_in_place
+theorem create_string_ledger : type_of% @Cjet.Props.CjsonTree.create_string_ledger := @Cjet.Props.CjsonTree.create_string_ledger
 
 end Cjet.Props.CJSONTREE_DEV
